@@ -53,7 +53,8 @@ CATALOG = {
     "fbO":   fb(h=[cE("ErrOpen")]),
     "fbHE":  fb(fr="R0", fe="EFB", h=[cE("E1")]),        # its own output is an error it does not handle: verdict success
     "fbRR":  fb(fr="R1", h=[cR("R1"), cE("E1")]),        # its own output is a result it handles: verdict failure
-    "fbZ":   fb(h=[cE("E1"), cR("R0")]),                 # handled zero result next to a narrowed error condition
+    "fbZ":   fb(h=[cE("E1"), cR("R0")]),
+    "fbOR":  fb(h=[cR("R1")]),                          # only a handled result: every error is still a failure (default rule)                 # handled zero result next to a narrowed error condition
     "cbX":   cb("cbX", BR1, h=[cE("ErrExceeded")]),       # a breaker that only counts exhausted retries
     "cK":    cache("cK"),
     "cIf":   cache("cIf", ifc=[cIf("p1")]),
